@@ -60,7 +60,7 @@ def main (args : List String) : IO UInt32 := do
   | ["persist"] => loopState stdin stdout Drv.Persist.step {}; return 0
   | ["adapter"] => loopState stdin stdout Drv.Misc.aStep {}; return 0
   | ["unit"] => loopState stdin stdout Drv.Misc.uStep SV.Unit.U.init; return 0
-  | ["fifo"] => loopState stdin stdout Drv.Misc.fStep (SV.Fifo.Cache.init 2 1); return 0
+  | ["fifo"] => loopState stdin stdout Drv.Misc.fStep (SV.Fifo.RCache.init 2 1); return 0
   | ["timecache"] => loopState stdin stdout Drv.Misc.tStep {}; return 0
   | ["concp"] => loopState stdin stdout Drv.Conc.step {}; return 0
   | ["crash"] => loopState stdin stdout Drv.Crash.step {}; return 0
